@@ -1,1 +1,769 @@
-(* placeholder: to be written *)
+(** Router (C14): registry invariant over all histories, creation guard, registered-pairs-only,
+    pass-through multi-hop.  The pair-level facts come from Proofs/PairInv.v. *)
+From MX Require Import Base.Prelude Gen.Params Model.Pair Model.Router
+  Proofs.ParamFacts Proofs.PairInv Proofs.PairChar.
+
+Ltac beq :=
+  repeat match goal with
+  | H : (_ =? _) = true |- _ => apply Z.eqb_eq in H
+  | H : (_ =? _) = false |- _ => apply Z.eqb_neq in H
+  | H : (_ <? _) = true |- _ => apply Z.ltb_lt in H
+  | H : (_ <? _) = false |- _ => apply Z.ltb_ge in H
+  | H : (_ <=? _) = true |- _ => apply Z.leb_le in H
+  | H : (_ <=? _) = false |- _ => apply Z.leb_gt in H
+  | H : _ && _ = true |- _ => apply andb_prop in H; destruct H
+  | H : _ || _ = false |- _ => apply orb_false_elim in H; destruct H
+  | H : negb _ = true |- _ => apply negb_true_iff in H
+  | H : negb _ = false |- _ => apply negb_false_iff in H
+  end.
+
+(** ------------------------------------------------------------------ ledger *)
+Definition keq (a t a' t' : Z) : bool := (a =? a') && (t =? t').
+
+Lemma keq_true a t a' t' : keq a t a' t' = true <-> a = a' /\ t = t'.
+Proof.
+  unfold keq. rewrite andb_true_iff, !Z.eqb_eq. tauto.
+Qed.
+
+Lemma lget_lset l a t v a' t' :
+  lget (lset l a t v) a' t' = if keq a t a' t' then v else lget l a' t'.
+Proof.
+  induction l as [|[[a0 t0] v0] tl IH]; simpl.
+  - unfold keq. reflexivity.
+  - destruct ((a0 =? a) && (t0 =? t)) eqn:E; simpl.
+    + beq. subst a0 t0. unfold keq. destruct ((a =? a') && (t =? t')); reflexivity.
+    + rewrite IH. destruct (keq a t a' t') eqn:K; [|reflexivity].
+      apply keq_true in K. destruct K; subst a' t'. rewrite E. reflexivity.
+Qed.
+
+Lemma lget_credit l a t v a' t' :
+  lget (credit l a t v) a' t' = lget l a' t' + (if keq a t a' t' then v else 0).
+Proof.
+  unfold credit. rewrite lget_lset. destruct (keq a t a' t') eqn:K; [|lia].
+  apply keq_true in K. destruct K; subst. lia.
+Qed.
+
+Lemma debit_ok l a t v l' : debit l a t v = Ok l' ->
+  v <= lget l a t /\ forall a' t', lget l' a' t' = lget l a' t' - (if keq a t a' t' then v else 0).
+Proof.
+  unfold debit. intros H. apply bind_ok in H. destruct H as (b & Hb & H). inversion H; subst; clear H.
+  apply sub_chk_ok in Hb. destruct Hb as [Hle ->]. split; [exact Hle|].
+  intros a' t'. rewrite lget_lset. destruct (keq a t a' t') eqn:K; [|lia].
+  apply keq_true in K. destruct K; subst. lia.
+Qed.
+
+(** amount of token [t] in a list of payments *)
+Fixpoint sum_tok (l : list (Z * Z)) (t : Z) : Z :=
+  match l with
+  | [] => 0
+  | (t', v) :: tl => (if t' =? t then v else 0) + sum_tok tl t
+  end.
+
+Lemma sum_tok_app l1 l2 t : sum_tok (l1 ++ l2) t = sum_tok l1 t + sum_tok l2 t.
+Proof. induction l1 as [|[t' v] tl IH]; simpl; [lia | rewrite IH; lia]. Qed.
+
+Lemma pay_all_ok ps : forall l from to l', pay_all l from to ps = Ok l' -> from <> to ->
+  forall a t, lget l' a t =
+    lget l a t - (if a =? from then sum_tok ps t else 0) + (if a =? to then sum_tok ps t else 0).
+Proof.
+  induction ps as [|[tk v] tl IH]; intros l from to l' H Hne a t; simpl in H.
+  - inversion H; subst. simpl. destruct (a =? from), (a =? to); lia.
+  - apply bind_ok in H. destruct H as (l1 & Hd & H).
+    apply debit_ok in Hd. destruct Hd as [_ Hd].
+    rewrite (IH _ _ _ _ H Hne). rewrite lget_credit, Hd. simpl. unfold keq.
+    destruct (a =? from) eqn:E1, (a =? to) eqn:E2, (tk =? t) eqn:E3; beq; subst;
+      try congruence; rewrite ?Z.eqb_refl; simpl;
+      repeat match goal with
+      | |- context [?x =? ?y] => let E := fresh in destruct (x =? y) eqn:E; beq; try congruence
+      end; simpl; lia.
+Qed.
+
+(** ------------------------------------------------------------------ pair contracts by address *)
+Lemma pair_at_upd l a v b :
+  pair_at (upd_pair l a v) b =
+  if b =? a then (match pair_at l a with Some _ => Some v | None => None end) else pair_at l b.
+Proof.
+  induction l as [|[k x] tl IH]; simpl.
+  - destruct (b =? a); reflexivity.
+  - destruct (k =? a) eqn:E; simpl.
+    + apply Z.eqb_eq in E. subst k. destruct (b =? a) eqn:E2.
+      * apply Z.eqb_eq in E2. subst b. rewrite Z.eqb_refl. reflexivity.
+      * rewrite (Z.eqb_sym a b), E2. exact IH.
+    + destruct (k =? b) eqn:E3.
+      * apply Z.eqb_eq in E3. subst k. rewrite E. reflexivity.
+      * exact IH.
+Qed.
+
+Lemma pair_at_app l a v b :
+  pair_at (l ++ [(a, v)]) b =
+  match pair_at l b with Some x => Some x | None => if a =? b then Some v else None end.
+Proof.
+  induction l as [|[k x] tl IH]; simpl; [reflexivity|].
+  destruct (k =? b); [reflexivity | exact IH].
+Qed.
+
+(** ------------------------------------------------------------------ pair_map: keys up to order *)
+Definition uo_eq (k1 k2 : Z * Z) : Prop :=
+  (fst k1 = fst k2 /\ snd k1 = snd k2) \/ (fst k1 = snd k2 /\ snd k1 = fst k2).
+
+Fixpoint uo_nodup (m : list (Z * Z * Z)) : Prop :=
+  match m with
+  | [] => True
+  | e :: t => (forall e', In e' t -> ~ uo_eq (fst e) (fst e')) /\ uo_nodup t
+  end.
+
+Lemma key_is_true e a b : key_is e a b = true <-> fst e = (a, b).
+Proof.
+  destruct e as [[x y] p]. unfold key_is. simpl. rewrite andb_true_iff, !Z.eqb_eq.
+  split; [intros [-> ->]; reflexivity | intros H; inversion H; auto].
+Qed.
+
+Lemma map_get_some m a b p : map_get m a b = Some p -> In (a, b, p) m.
+Proof.
+  induction m as [|e t IH]; simpl; [discriminate|].
+  destruct (key_is e a b) eqn:E.
+  - intros H. inversion H; subst. apply key_is_true in E. left. destruct e as [k q]. simpl in *. subst. reflexivity.
+  - intros H. right. auto.
+Qed.
+
+Lemma map_get_none m a b : map_get m a b = None -> forall p, ~ In (a, b, p) m.
+Proof.
+  induction m as [|e t IH]; simpl; intros H p; [tauto|].
+  destruct (key_is e a b) eqn:E; [discriminate|].
+  intros [Hin|Hin]; [|exact (IH H p Hin)].
+  subst e. unfold key_is in E. simpl in E. rewrite !Z.eqb_refl in E. discriminate.
+Qed.
+
+Lemma map_get_in m a b p : In (a, b, p) m -> exists q, map_get m a b = Some q.
+Proof.
+  intros Hin. destruct (map_get m a b) eqn:E; [eauto|].
+  exfalso. exact (map_get_none _ _ _ E p Hin).
+Qed.
+
+Lemma map_get_app m e a b :
+  map_get (m ++ [e]) a b =
+  match map_get m a b with Some p => Some p | None => if key_is e a b then Some (snd e) else None end.
+Proof.
+  induction m as [|e0 t IH]; simpl; [reflexivity|].
+  destruct (key_is e0 a b); [reflexivity | exact IH].
+Qed.
+
+(** two entries whose keys agree up to order are one and the same entry *)
+Lemma uo_unique m : uo_nodup m -> forall e1 e2, In e1 m -> In e2 m -> uo_eq (fst e1) (fst e2) -> e1 = e2.
+Proof.
+  induction m as [|e t IH]; simpl; [intros _ e1 e2 []|].
+  intros [Hh Ht] e1 e2 H1 H2 Hu.
+  destruct H1 as [<-|H1], H2 as [<-|H2].
+  - reflexivity.
+  - exfalso. exact (Hh _ H2 Hu).
+  - exfalso. apply (Hh _ H1). unfold uo_eq in *. intuition congruence.
+  - apply IH; assumption.
+Qed.
+
+Lemma uo_lookup_agree m a b p q : uo_nodup m ->
+  map_get m a b = Some p -> map_get m b a = Some q -> p = q.
+Proof.
+  intros Hu H1 H2. apply map_get_some in H1. apply map_get_some in H2.
+  assert (E : (a, b, p) = (b, a, q)).
+  { apply (uo_unique m Hu); auto. unfold uo_eq. simpl. right. auto. }
+  inversion E; reflexivity.
+Qed.
+
+(** lookups are order-insensitive *)
+Lemma get_pair_sym m a b : uo_nodup m -> get_pair m a b = get_pair m b a.
+Proof.
+  intros Hu. unfold get_pair.
+  destruct (map_get m a b) as [p|] eqn:E1, (map_get m b a) as [q|] eqn:E2; try reflexivity.
+  f_equal. eapply uo_lookup_agree; eauto.
+Qed.
+
+Lemma get_pair_some m a b p : get_pair m a b = Some p -> In (a, b, p) m \/ In (b, a, p) m.
+Proof.
+  unfold get_pair. destruct (map_get m a b) eqn:E.
+  - intros H. inversion H; subst. left. apply map_get_some. exact E.
+  - intros H. right. apply map_get_some. exact H.
+Qed.
+
+Lemma get_pair_none m a b : get_pair m a b = None ->
+  forall e, In e m -> ~ uo_eq (a, b) (fst e).
+Proof.
+  unfold get_pair. destruct (map_get m a b) eqn:E1; [discriminate|].
+  intros E2 [[x y] p] Hin [[Hx Hy]|[Hx Hy]]; simpl in *; subst.
+  - exact (map_get_none _ _ _ E1 p Hin).
+  - exact (map_get_none _ _ _ E2 p Hin).
+Qed.
+
+Lemma get_pair_of_in m a b p : uo_nodup m -> In (a, b, p) m ->
+  get_pair m a b = Some p /\ get_pair m b a = Some p.
+Proof.
+  intros Hu Hin.
+  assert (H1 : get_pair m a b = Some p).
+  { unfold get_pair. destruct (map_get_in _ _ _ _ Hin) as (q & Hq). rewrite Hq.
+    apply map_get_some in Hq.
+    assert (E : (a, b, q) = (a, b, p)) by (apply (uo_unique m Hu); auto; left; auto).
+    inversion E; reflexivity. }
+  split; [exact H1 | rewrite <- get_pair_sym by assumption; exact H1].
+Qed.
+
+Lemma uo_nodup_app m a b p : uo_nodup m -> get_pair m a b = None -> uo_nodup (m ++ [(a, b, p)]).
+Proof.
+  intros Hu Hn. induction m as [|e t IH]; simpl.
+  - split; [intros e' [] | exact I].
+  - destruct Hu as [Hh Ht]. split.
+    + intros e' Hin. apply in_app_or in Hin. destruct Hin as [Hin|[<-|[]]]; [auto|].
+      intros Hq. apply (get_pair_none _ _ _ Hn e (or_introl eq_refl)).
+      unfold uo_eq in *. simpl in *. intuition congruence.
+    + apply IH; [exact Ht|].
+      unfold get_pair in *. simpl in Hn.
+      destruct (key_is e a b); [discriminate|].
+      destruct (map_get t a b); [discriminate|].
+      destruct (key_is e b a); [discriminate | exact Hn].
+Qed.
+
+Lemma uo_nodup_filter f m : uo_nodup m -> uo_nodup (filter f m).
+Proof.
+  induction m as [|e t IH]; simpl; [auto|]. intros [Hh Ht].
+  destruct (f e); simpl; [|auto].
+  split; [|auto]. intros e' Hin. apply filter_In in Hin. apply Hh. tauto.
+Qed.
+
+Lemma map_get_remove_same m a b : map_get (map_remove m a b) a b = None.
+Proof.
+  unfold map_remove. induction m as [|e t IH]; simpl; [reflexivity|].
+  destruct (key_is e a b) eqn:E; simpl; [exact IH | rewrite E; exact IH].
+Qed.
+
+(** ------------------------------------------------------------------ world invariant *)
+Record WInv (w : world) : Prop := {
+  wi_uo : uo_nodup (r_map (w_r w));
+  wi_ent : forall a b x, In (a, b, x) (r_map (w_r w)) ->
+           a <> b /\ exists pe, pair_at (w_pairs w) x = Some pe /\ pe_t1 pe = a /\ pe_t2 pe = b;
+  wi_pinv : forall x pe, pair_at (w_pairs w) x = Some pe -> PairInv (pe_p pe)
+}.
+
+Lemma winv_frame w w' : r_map (w_r w') = r_map (w_r w) -> w_pairs w' = w_pairs w -> WInv w -> WInv w'.
+Proof. intros Hr Hp []. constructor; rewrite ?Hr, ?Hp; assumption. Qed.
+
+Lemma winv_upd w addr pe pe' : WInv w -> pair_at (w_pairs w) addr = Some pe ->
+  pe_t1 pe' = pe_t1 pe -> pe_t2 pe' = pe_t2 pe -> PairInv (pe_p pe') ->
+  WInv (set_pairs w (upd_pair (w_pairs w) addr pe')).
+Proof.
+  intros [] Hat H1 H2 Hinv. constructor; simpl.
+  - assumption.
+  - intros a b x Hin. destruct (wi_ent0 a b x Hin) as (Hne & pe0 & Hp & Ha & Hb).
+    split; [exact Hne|]. rewrite pair_at_upd. destruct (x =? addr) eqn:E.
+    + beq. subst x. rewrite Hat. exists pe'. rewrite Hat in Hp. inversion Hp; subst pe0.
+      repeat split; congruence.
+    + exists pe0. auto.
+  - intros x pe0. rewrite pair_at_upd. destruct (x =? addr) eqn:E.
+    + rewrite Hat. intros H. inversion H; subst. exact Hinv.
+    + apply wi_pinv0.
+Qed.
+
+Lemma winv_add_pair w na pe : WInv w -> pair_at (w_pairs w) na = None -> PairInv (pe_p pe) ->
+  WInv (set_pairs w (w_pairs w ++ [(na, pe)])).
+Proof.
+  intros [] Hfresh Hinv. constructor; simpl.
+  - assumption.
+  - intros a b x Hin. destruct (wi_ent0 a b x Hin) as (Hne & pe0 & Hp & Ha & Hb).
+    split; [exact Hne|]. exists pe0. rewrite pair_at_app, Hp. auto.
+  - intros x pe0. rewrite pair_at_app. destruct (pair_at (w_pairs w) x) eqn:E.
+    + intros H. inversion H; subst. eapply wi_pinv0; eauto.
+    + destruct (na =? x); intros H; inversion H; subst. exact Hinv.
+Qed.
+
+Lemma registered_ok w addr pe : registered w addr = Ok pe ->
+  pair_at (w_pairs w) addr = Some pe /\ get_pair (r_map (w_r w)) (pe_t1 pe) (pe_t2 pe) = Some addr.
+Proof.
+  unfold registered. destruct (pair_at (w_pairs w) addr) as [pe0|] eqn:E; [|discriminate].
+  destruct (get_pair _ _ _) as [a'|] eqn:G; [|discriminate].
+  destruct (a' =? addr) eqn:E2; [|discriminate]. intros H. inversion H; subst. beq. subst. auto.
+Qed.
+
+Lemma pair_init_ok_spec a b f sf : pair_init_ok a b f sf = true ->
+  a <> b /\ 0 < a /\ 0 < b /\ 0 <= sf <= f /\ f <= PAIR_MAX_FEE_PERCENTAGE.
+Proof. unfold pair_init_ok, tok_valid. intros H. beq. lia. Qed.
+
+Lemma fresh_addr_spec w na : fresh_addr w na = true -> na <> ROUTER /\ pair_at (w_pairs w) na = None.
+Proof.
+  unfold fresh_addr. intros H. beq. split; [assumption|].
+  destruct (pair_at (w_pairs w) na); [discriminate | reflexivity].
+Qed.
+
+Lemma create_pair_winv w c a b adder fees na w' o :
+  ep_create_pair w c a b adder fees na = Ok (w', o) -> WInv w -> WInv w'.
+Proof.
+  unfold ep_create_pair. intros H Hinv. cbv zeta in H.
+  destruct (r_active (w_r w)); [|discriminate].
+  destruct (is_owner w c || r_creation (w_r w)); [|discriminate].
+  destruct (negb (a =? b)) eqn:Eab; [|discriminate].
+  destruct (tok_valid a); [|discriminate]. destruct (tok_valid b); [|discriminate].
+  destruct (get_pair (r_map (w_r w)) a b) eqn:G; [discriminate|].
+  apply bind_ok in H. destruct H as ([f sf] & _ & H).
+  destruct (fresh_addr w na) eqn:Ef; [|discriminate].
+  destruct (pair_init_ok a b f sf) eqn:Ei; [|discriminate].
+  inversion H; subst; clear H.
+  apply fresh_addr_spec in Ef. destruct Ef as [_ Ef].
+  apply pair_init_ok_spec in Ei. destruct Ei as (Hne & _ & _ & Hf1 & Hf2).
+  set (pe := mkPent a b false (init_pair f sf (if adder =? 0 then None else Some adder))).
+  assert (Hp : PairInv (pe_p pe)) by (apply init_inv; assumption).
+  pose proof (winv_add_pair w na pe Hinv Ef Hp) as [U E P].
+  constructor; simpl in *.
+  - apply uo_nodup_app; assumption.
+  - intros x y z Hin. apply in_app_or in Hin. destruct Hin as [Hin|[Hin|[]]].
+    + apply E. exact Hin.
+    + inversion Hin; subst. split; [exact Hne|]. exists pe. rewrite pair_at_app, Ef, Z.eqb_refl. auto.
+  - exact P.
+Qed.
+
+Lemma remove_pair_winv w c a b w' o :
+  ep_remove_pair w c a b = Ok (w', o) -> WInv w -> WInv w'.
+Proof.
+  unfold ep_remove_pair. intros H Hinv. cbv zeta in H.
+  destruct (is_owner w c); [|discriminate]. destruct (r_active (w_r w)); [|discriminate].
+  destruct (negb (a =? b)); [|discriminate].
+  destruct (tok_valid a); [|discriminate]. destruct (tok_valid b); [|discriminate].
+  destruct (get_pair (r_map (w_r w)) a b); [|discriminate].
+  assert (Hrm : forall x y, WInv (set_r w (set_map (w_r w) (map_remove (r_map (w_r w)) x y)))).
+  { intros x y. destruct Hinv as [U E P]. constructor; simpl.
+    - apply uo_nodup_filter. exact U.
+    - intros a0 b0 z0 Hin. apply filter_In in Hin. apply E. tauto.
+    - exact P. }
+  destruct (map_get (r_map (w_r w)) a b).
+  - inversion H; subst. apply Hrm.
+  - destruct (map_get (r_map (w_r w)) b a); inversion H; subst; [apply Hrm | exact Hinv].
+Qed.
+
+Lemma pair_admin_winv w addr pe op w' o :
+  pair_admin w addr pe op = Ok (w', o) -> pair_at (w_pairs w) addr = Some pe -> WInv w -> WInv w'.
+Proof.
+  unfold pair_admin. intros H Hat Hinv.
+  apply bind_ok in H. destruct H as ([[p' o1] e1] & Hs & H). inversion H; subst; clear H.
+  apply winv_upd with (pe := pe); auto.
+  simpl. apply step_spec in Hs; [tauto|]. eapply wi_pinv; eauto.
+Qed.
+
+(** one hop: the registry and every other pair are left alone, the hop's pair keeps its tokens *)
+Lemma do_hop_frame w h last resid w' last' resid' :
+  do_hop w h last resid = Ok (w', last', resid') ->
+  exists pe p', registered w (fst (fst (fst h))) = Ok pe /\
+    w_r w' = w_r w /\ w_block w' = w_block w /\
+    w_pairs w' = upd_pair (w_pairs w) (fst (fst (fst h))) (set_pp pe p') /\
+    (WInv w -> PairInv p').
+Proof.
+  destruct h as [[[addr f] tw] aw]. destruct last as [tin ain]. unfold do_hop. simpl fst.
+  intros H. apply bind_ok in H. destruct H as (pe & Hreg & H).
+  destruct (f =? FIXED_IN).
+  - apply bind_ok in H. destruct H as (led1 & _ & H).
+    apply bind_ok in H. destruct H as ([[p' o] e] & Hs & H).
+    destruct o as [|out [|? ?]]; try discriminate. destruct (e_ext e); [|discriminate].
+    inversion H; subst; clear H. exists pe, p'.
+    split; [exact Hreg|]. split; [reflexivity|]. split; [reflexivity|]. split; [reflexivity|].
+    intros Hinv. apply registered_ok in Hreg. destruct Hreg as [Hat _].
+    apply ep_swap_in_spec in Hs; [tauto|]. eapply wi_pinv; eauto.
+  - destruct (f =? FIXED_OUT); [|discriminate].
+    apply bind_ok in H. destruct H as (led1 & _ & H).
+    apply bind_ok in H. destruct H as ([[p' o] e] & Hs & H).
+    destruct o as [|out [|res [|? ?]]]; try discriminate. destruct (e_ext e); [|discriminate].
+    inversion H; subst; clear H. exists pe, p'.
+    split; [exact Hreg|]. split; [reflexivity|]. split; [reflexivity|]. split; [reflexivity|].
+    intros Hinv. apply registered_ok in Hreg. destruct Hreg as [Hat _].
+    apply ep_swap_out_spec in Hs; [tauto|]. eapply wi_pinv; eauto.
+Qed.
+
+Lemma do_hop_winv w h last resid w' last' resid' :
+  do_hop w h last resid = Ok (w', last', resid') -> WInv w -> WInv w'.
+Proof.
+  intros H Hinv. destruct (do_hop_frame _ _ _ _ _ _ _ H) as (pe & p' & Hreg & Hr & _ & Hp & Hpi).
+  apply registered_ok in Hreg. destruct Hreg as [Hat _].
+  pose proof (winv_upd w _ pe (set_pp pe p') Hinv Hat eq_refl eq_refl (Hpi Hinv)) as Hw.
+  eapply winv_frame; [| |exact Hw]; simpl; [rewrite Hr; reflexivity | assumption].
+Qed.
+
+Lemma run_hops_winv hops : forall w last resid w' last' resid',
+  run_hops w hops last resid = Ok (w', last', resid') -> WInv w -> WInv w'.
+Proof.
+  induction hops as [|h t IH]; intros w last resid w' last' resid' H Hinv; simpl in H.
+  - inversion H; subst. exact Hinv.
+  - apply bind_ok in H. destruct H as ([[w1 l1] r1] & Hh & H).
+    eapply IH; [exact H|]. eapply do_hop_winv; eauto.
+Qed.
+
+Lemma multi_swap_winv w c tin amt hops w' ps :
+  ep_multi_swap w c tin amt hops = Ok (w', ps) -> WInv w -> WInv w'.
+Proof.
+  unfold ep_multi_swap. intros H Hinv.
+  destruct (r_active (w_r w)); [|discriminate]. destruct (tok_valid tin); [|discriminate].
+  destruct (0 <? amt); [|discriminate].
+  destruct (match hops with [] => false | _ => true end); [|discriminate].
+  apply bind_ok in H. destruct H as (led0 & _ & H). cbv zeta in H.
+  apply bind_ok in H. destruct H as ([[w1 last] resid] & Hr & H).
+  apply bind_ok in H. destruct H as (led2 & _ & H). inversion H; subst; clear H.
+  apply run_hops_winv in Hr.
+  - eapply winv_frame; [| |exact Hr]; reflexivity.
+  - eapply winv_frame; [| |exact Hinv]; reflexivity.
+Qed.
+
+Lemma rstep_winv w op w' o : rstep w op = Ok (w', o) -> WInv w -> WInv w'.
+Proof.
+  intros H Hinv. destruct op; simpl in H.
+  - eapply create_pair_winv; eauto.
+  - eapply remove_pair_winv; eauto.
+  - (* UpgradePair *) unfold ep_upgrade_pair in H. cbv zeta in H.
+    destruct (is_owner w c); [|discriminate]. destruct (r_active (w_r w)); [|discriminate].
+    destruct (negb (a =? b)); [|discriminate].
+    destruct (tok_valid a); [|discriminate]. destruct (tok_valid b); [|discriminate].
+    destruct (get_pair _ _ _); inversion H; subst. exact Hinv.
+  - (* Pause *) unfold ep_pause in H. destruct (is_owner w c); [|discriminate].
+    destruct (addr =? ROUTER).
+    + inversion H; subst. eapply winv_frame; [| |exact Hinv]; reflexivity.
+    + apply bind_ok in H. destruct H as (pe & Hreg & H). apply registered_ok in Hreg.
+      eapply pair_admin_winv; eauto. tauto.
+  - (* Resume *) unfold ep_pause in H. destruct (is_owner w c); [|discriminate].
+    destruct (addr =? ROUTER).
+    + inversion H; subst. eapply winv_frame; [| |exact Hinv]; reflexivity.
+    + apply bind_ok in H. destruct H as (pe & Hreg & H). apply registered_ok in Hreg.
+      eapply pair_admin_winv; eauto. tauto.
+  - (* RSetFeeOn *) unfold ep_set_fee in H. destruct (is_owner w c); [|discriminate].
+    destruct (r_active (w_r w)); [|discriminate].
+    apply bind_ok in H. destruct H as (pe & Hreg & H). apply registered_ok in Hreg.
+    eapply pair_admin_winv; eauto. tauto.
+  - (* RSetFeeOff *) unfold ep_set_fee in H. destruct (is_owner w c); [|discriminate].
+    destruct (r_active (w_r w)); [|discriminate].
+    apply bind_ok in H. destruct H as (pe & Hreg & H). apply registered_ok in Hreg.
+    eapply pair_admin_winv; eauto. tauto.
+  - (* SetLocalRoles *) unfold ep_set_local_roles in H. destruct (r_active (w_r w)); [|discriminate].
+    apply bind_ok in H. destruct H as (pe & _ & H). destruct (pe_lp pe); inversion H; subst. exact Hinv.
+  - (* IssueLp *) unfold ep_issue_lp in H. cbv zeta in H. destruct (r_active (w_r w)); [|discriminate].
+    destruct (is_owner w c || r_creation (w_r w)); [|discriminate].
+    apply bind_ok in H. destruct H as (pe & _ & H).
+    destruct (match temp_owner w addr with None => true | Some t => c =? t end); [|discriminate].
+    destruct (negb (pe_lp pe)); inversion H; subst. exact Hinv.
+  - (* SetCreation *) unfold ep_set_creation in H. destruct (is_owner w c); inversion H; subst.
+    eapply winv_frame; [| |exact Hinv]; reflexivity.
+  - (* MultiSwap *) apply bind_ok in H. destruct H as ([w1 ps] & Hm & H). inversion H; subst.
+    eapply multi_swap_winv; eauto.
+  - (* DeployPair *) unfold ep_deploy_pair in H.
+    destruct (fresh_addr w na) eqn:Ef; [|discriminate].
+    destruct (pair_init_ok a b f sf) eqn:Ei; [|discriminate]. inversion H; subst; clear H.
+    apply fresh_addr_spec in Ef. apply pair_init_ok_spec in Ei.
+    apply winv_add_pair; [exact Hinv | tauto | simpl; apply init_inv; tauto].
+  - (* SetLp *) unfold ep_set_lp in H. destruct (pair_at (w_pairs w) addr) as [pe|] eqn:Hat; [|discriminate].
+    destruct (has_owner_perm c); [|discriminate]. destruct (negb (pe_lp pe)); inversion H; subst.
+    apply winv_upd with (pe := pe); auto. simpl. eapply wi_pinv; eauto.
+  - (* Direct *) unfold ep_direct in H. destruct (pair_at (w_pairs w) addr) as [pe|] eqn:Hat; [|discriminate].
+    destruct (direct_allowed op); [|discriminate].
+    destruct (negb (needs_lp op) || pe_lp pe); [|discriminate].
+    apply bind_ok in H. destruct H as ([[p' o1] e1] & Hs & H).
+    destruct (match e_ext e1 with [] => true | _ => false end); [|discriminate].
+    destruct (moves op o1) as [[c0 debs] creds].
+    apply bind_ok in H. destruct H as (led1 & _ & H). inversion H; subst; clear H.
+    assert (Hp : PairInv p') by (apply step_spec in Hs; [tauto | eapply wi_pinv; eauto]).
+    pose proof (winv_upd w addr pe (set_pp pe p') Hinv Hat eq_refl eq_refl Hp) as Hw.
+    eapply winv_frame; [| |exact Hw]; reflexivity.
+  - (* DonateRouter *) unfold ep_donate_router in H. destruct (0 <? amt); [|discriminate].
+    apply bind_ok in H. destruct H as (led1 & _ & H). inversion H; subst.
+    eapply winv_frame; [| |exact Hinv]; reflexivity.
+  - (* SetBlock *) inversion H; subst. eapply winv_frame; [| |exact Hinv]; reflexivity.
+Qed.
+
+Lemma rstep_total_winv w op : WInv w -> WInv (rstep_total w op).
+Proof.
+  intros H. unfold rstep_total. destruct (rstep w op) as [[w' o]|] eqn:E; [|exact H].
+  eapply rstep_winv; eauto.
+Qed.
+
+Lemma rrun_winv ops : forall w, WInv w -> WInv (rrun w ops).
+Proof.
+  induction ops as [|op t IH]; intros w H; simpl; [exact H|].
+  apply IH. apply rstep_total_winv. exact H.
+Qed.
+
+Lemma init_winv led blk : WInv (init_world led blk).
+Proof.
+  constructor; simpl.
+  - exact I.
+  - intros a b x [].
+  - intros x pe H. discriminate.
+Qed.
+
+(** ================================================================== clause 1: the registry *)
+Lemma registry_one_per_pair w : WInv w -> forall a b x c d y,
+  In (a, b, x) (r_map (w_r w)) -> In (c, d, y) (r_map (w_r w)) -> uo_eq (a, b) (c, d) ->
+  (a, b, x) = (c, d, y).
+Proof. intros [U _ _] a b x c d y H1 H2 Hu. apply (uo_unique _ U (a, b, x) (c, d, y)); auto. Qed.
+
+Lemma registry_lookup_sym w : WInv w -> forall a b,
+  get_pair (r_map (w_r w)) a b = get_pair (r_map (w_r w)) b a.
+Proof. intros [U _ _] a b. apply get_pair_sym. exact U. Qed.
+
+(** getPair answers exactly the entries, in either order *)
+Lemma registry_lookup_char w : WInv w -> forall a b x,
+  get_pair (r_map (w_r w)) a b = Some x <-> (In (a, b, x) (r_map (w_r w)) \/ In (b, a, x) (r_map (w_r w))).
+Proof.
+  intros [U _ _] a b x. split.
+  - apply get_pair_some.
+  - intros [H|H]; apply (get_pair_of_in _ _ _ _ U) in H; tauto.
+Qed.
+
+(** distinct token pairs are served by distinct pair contracts *)
+Lemma registry_addr_nodup w : WInv w -> NoDup (all_pairs (r_map (w_r w))).
+Proof.
+  intros [U E _]. unfold all_pairs.
+  assert (Hk : forall e1 e2, In e1 (r_map (w_r w)) -> In e2 (r_map (w_r w)) -> snd e1 = snd e2 ->
+               uo_eq (fst e1) (fst e2)).
+  { intros [[a b] x] [[c d] y] H1 H2 Hs. simpl in Hs. subst y.
+    destruct (E _ _ _ H1) as (_ & pe1 & P1 & A1 & B1). destruct (E _ _ _ H2) as (_ & pe2 & P2 & A2 & B2).
+    rewrite P1 in P2. inversion P2; subst pe2. left. simpl. split; congruence. }
+  revert U Hk. generalize (r_map (w_r w)). intros m. induction m as [|e t IH]; simpl; intros U Hk.
+  - constructor.
+  - destruct U as [Hh Ht]. constructor.
+    + intros Hin. apply in_map_iff in Hin. destruct Hin as (e' & Hs & Hin).
+      apply (Hh e' Hin). apply Hk; auto.
+    + apply IH; [exact Ht|]. intros e1 e2 H1 H2. apply Hk; auto.
+Qed.
+
+(** the address is the pair_map entry for the tokens the contract at that address reports *)
+Definition Registered (w : world) (addr : Z) : Prop :=
+  exists pe, pair_at (w_pairs w) addr = Some pe /\
+             get_pair (r_map (w_r w)) (pe_t1 pe) (pe_t2 pe) = Some addr.
+
+Lemma registered_Registered w addr pe : registered w addr = Ok pe -> Registered w addr.
+Proof. intros H. apply registered_ok in H. exists pe. exact H. Qed.
+
+Lemma Registered_registered w addr : Registered w addr -> exists pe, registered w addr = Ok pe.
+Proof.
+  intros (pe & Hat & G). exists pe. unfold registered. rewrite Hat, G, Z.eqb_refl. reflexivity.
+Qed.
+
+(** ... which, on reachable worlds, is the same as being listed by getAllPairsManagedAddresses *)
+Lemma registered_iff_listed w addr : WInv w ->
+  (Registered w addr <-> In addr (all_pairs (r_map (w_r w)))).
+Proof.
+  intros [U E _]. unfold all_pairs. split.
+  - intros (pe & _ & G). apply get_pair_some in G.
+    destruct G as [G|G]; apply (in_map snd) in G; exact G.
+  - intros Hin. apply in_map_iff in Hin. destruct Hin as ([[a b] x] & Hs & Hin). simpl in Hs. subst x.
+    destruct (E _ _ _ Hin) as (_ & pe & P & A & B). exists pe. split; [exact P|].
+    subst a b. apply (get_pair_of_in _ _ _ _ U Hin).
+Qed.
+
+Lemma reachable_winv led blk ops : WInv (rrun (init_world led blk) ops).
+Proof. apply rrun_winv. apply init_winv. Qed.
+
+(** ================================================================== clause 2: creation guard *)
+Lemma get_pair_none_sym m a b : get_pair m a b = None -> get_pair m b a = None.
+Proof.
+  unfold get_pair. destruct (map_get m a b) eqn:E1; [discriminate|]. intros E2. rewrite E2. reflexivity.
+Qed.
+
+Lemma create_pair_guard w c a b adder fees na w' o :
+  ep_create_pair w c a b adder fees na = Ok (w', o) ->
+  r_active (w_r w) = true /\ (c = r_owner (w_r w) \/ r_creation (w_r w) = true) /\ a <> b /\
+  get_pair (r_map (w_r w)) a b = None /\ get_pair (r_map (w_r w)) b a = None /\
+  o = [na] /\ pair_at (w_pairs w) na = None /\
+  r_map (w_r w') = r_map (w_r w) ++ [(a, b, na)] /\
+  exists pe, pair_at (w_pairs w') na = Some pe /\ pe_t1 pe = a /\ pe_t2 pe = b /\ pe_lp pe = false /\
+             p_state (pe_p pe) = ST_Inactive /\ p_S (pe_p pe) = 0 /\
+             (c <> r_owner (w_r w) ->
+              p_fee (pe_p pe) = ROUTER_DEFAULT_TOTAL_FEE_PERCENT /\
+              p_sfee (pe_p pe) = ROUTER_DEFAULT_SPECIAL_FEE_PERCENT).
+Proof.
+  unfold ep_create_pair. intros H. cbv zeta in H.
+  destruct (r_active (w_r w)) eqn:Ea; [|discriminate].
+  destruct (is_owner w c || r_creation (w_r w)) eqn:Eo; [|discriminate].
+  destruct (negb (a =? b)) eqn:Eab; [|discriminate].
+  destruct (tok_valid a); [|discriminate]. destruct (tok_valid b); [|discriminate].
+  destruct (get_pair (r_map (w_r w)) a b) eqn:G; [discriminate|].
+  apply bind_ok in H. destruct H as ([f sf] & Hf & H).
+  destruct (fresh_addr w na) eqn:Ef; [|discriminate].
+  destruct (pair_init_ok a b f sf) eqn:Ei; [|discriminate].
+  inversion H; subst; clear H.
+  apply fresh_addr_spec in Ef. destruct Ef as [_ Ef]. beq.
+  split; [reflexivity|]. split.
+  { unfold is_owner in Eo. apply orb_prop in Eo. destruct Eo as [Eo|Eo]; [left; beq; exact Eo | right; exact Eo]. }
+  split; [exact Eab|]. split; [reflexivity|]. split; [apply get_pair_none_sym; exact G|].
+  split; [reflexivity|]. split; [exact Ef|]. split; [reflexivity|].
+  eexists. split; [simpl; rewrite pair_at_app, Ef, Z.eqb_refl; reflexivity|]. simpl.
+  split; [reflexivity|]. split; [reflexivity|]. split; [reflexivity|]. split; [reflexivity|].
+  split; [reflexivity|].
+  intros Hno. unfold is_owner in Hf. destruct (c =? r_owner (w_r w)) eqn:E; [beq; contradiction|].
+  inversion Hf; subst. split; reflexivity.
+Qed.
+
+Lemma create_pair_registers w c a b adder fees na w' o : WInv w ->
+  ep_create_pair w c a b adder fees na = Ok (w', o) ->
+  get_pair (r_map (w_r w')) a b = Some na /\ get_pair (r_map (w_r w')) b a = Some na /\
+  all_pairs (r_map (w_r w')) = all_pairs (r_map (w_r w)) ++ [na] /\
+  ~ In na (all_pairs (r_map (w_r w))) /\ Registered w' na.
+Proof.
+  intros Hinv H. pose proof (create_pair_winv _ _ _ _ _ _ _ _ _ H Hinv) as Hinv'.
+  apply create_pair_guard in H.
+  destruct H as (_ & _ & _ & _ & _ & _ & Hfresh & Hm & pe & Hat & A & B & _).
+  assert (Hin : In (a, b, na) (r_map (w_r w'))) by (rewrite Hm; apply in_or_app; right; left; reflexivity).
+  destruct (get_pair_of_in _ _ _ _ (wi_uo _ Hinv') Hin) as [G1 G2].
+  split; [exact G1|]. split; [exact G2|].
+  split; [rewrite Hm; unfold all_pairs; rewrite map_app; reflexivity|].
+  split.
+  - intros Hl. apply (registered_iff_listed _ _ Hinv) in Hl. destruct Hl as (pe0 & P & _). congruence.
+  - exists pe. subst a b. auto.
+Qed.
+
+Lemma remove_pair_guard w c a b w' o : WInv w ->
+  ep_remove_pair w c a b = Ok (w', o) ->
+  c = r_owner (w_r w) /\ r_active (w_r w) = true /\ a <> b /\
+  (exists p, get_pair (r_map (w_r w)) a b = Some p /\ o = [p]) /\
+  get_pair (r_map (w_r w')) a b = None /\ get_pair (r_map (w_r w')) b a = None /\
+  w_pairs w' = w_pairs w.
+Proof.
+  intros Hinv H. pose proof H as H0. unfold ep_remove_pair in H. cbv zeta in H.
+  destruct (is_owner w c) eqn:Eo; [|discriminate]. destruct (r_active (w_r w)); [|discriminate].
+  destruct (negb (a =? b)) eqn:Eab; [|discriminate].
+  destruct (tok_valid a); [|discriminate]. destruct (tok_valid b); [|discriminate].
+  destruct (get_pair (r_map (w_r w)) a b) as [p|] eqn:G; [|discriminate].
+  unfold is_owner in Eo. beq.
+  split; [exact Eo|]. split; [reflexivity|]. split; [exact Eab|].
+  pose proof (wi_uo _ Hinv) as U.
+  unfold get_pair in G.
+  destruct (map_get (r_map (w_r w)) a b) as [p1|] eqn:G1.
+  - inversion G; subst p1. inversion H; subst; clear H. simpl.
+    split; [exists p; auto|].
+    assert (N1 : map_get (map_remove (r_map (w_r w)) a b) a b = None) by apply map_get_remove_same.
+    assert (N2 : map_get (map_remove (r_map (w_r w)) a b) b a = None).
+    { destruct (map_get (map_remove (r_map (w_r w)) a b) b a) as [q|] eqn:E; [|reflexivity]. exfalso.
+      apply map_get_some in E. apply filter_In in E. destruct E as [E _]. apply map_get_some in G1.
+      assert (X : (a, b, p) = (b, a, q)) by (apply (uo_unique _ U); auto; right; auto).
+      inversion X; congruence. }
+    unfold get_pair. rewrite N1, N2. auto.
+  - rewrite G in H. inversion H; subst; clear H. simpl.
+    split; [exists p; auto|].
+    assert (N1 : map_get (map_remove (r_map (w_r w)) b a) b a = None) by apply map_get_remove_same.
+    assert (N2 : map_get (map_remove (r_map (w_r w)) b a) a b = None).
+    { destruct (map_get (map_remove (r_map (w_r w)) b a) a b) as [q|] eqn:E; [|reflexivity]. exfalso.
+      apply map_get_some in E. apply filter_In in E. destruct E as [E _].
+      exact (map_get_none _ _ _ G1 q E). }
+    unfold get_pair. rewrite N1, N2. auto.
+Qed.
+
+(** ================================================================== clause 3: registered pairs only *)
+(** the pair address a management endpoint is asked to act on (pause/resume of the router itself
+    is the router's own switch, not a pair operation) *)
+Definition mgmt_target (op : rop) : option Z :=
+  match op with
+  | Pause _ a | Resume _ a => if a =? ROUTER then None else Some a
+  | RSetFeeOn _ a _ _ | RSetFeeOff _ a _ _ | SetLocalRoles _ a | IssueLp _ a => Some a
+  | _ => None
+  end.
+
+Lemma registered_only w op w' o addr :
+  rstep w op = Ok (w', o) -> mgmt_target op = Some addr -> Registered w addr.
+Proof.
+  intros H T. destruct op; simpl in T; try discriminate; simpl in H.
+  - destruct (addr0 =? ROUTER) eqn:E; [discriminate|]. inversion T; subst addr0.
+    unfold ep_pause in H. destruct (is_owner w c); [|discriminate]. rewrite E in H.
+    apply bind_ok in H. destruct H as (pe & Hreg & _). eapply registered_Registered; eauto.
+  - destruct (addr0 =? ROUTER) eqn:E; [discriminate|]. inversion T; subst addr0.
+    unfold ep_pause in H. destruct (is_owner w c); [|discriminate]. rewrite E in H.
+    apply bind_ok in H. destruct H as (pe & Hreg & _). eapply registered_Registered; eauto.
+  - inversion T; subst addr0. unfold ep_set_fee in H. destruct (is_owner w c); [|discriminate].
+    destruct (r_active (w_r w)); [|discriminate].
+    apply bind_ok in H. destruct H as (pe & Hreg & _). eapply registered_Registered; eauto.
+  - inversion T; subst addr0. unfold ep_set_fee in H. destruct (is_owner w c); [|discriminate].
+    destruct (r_active (w_r w)); [|discriminate].
+    apply bind_ok in H. destruct H as (pe & Hreg & _). eapply registered_Registered; eauto.
+  - inversion T; subst addr0. unfold ep_set_local_roles in H. destruct (r_active (w_r w)); [|discriminate].
+    apply bind_ok in H. destruct H as (pe & Hreg & _). eapply registered_Registered; eauto.
+  - inversion T; subst addr0. unfold ep_issue_lp in H. cbv zeta in H.
+    destruct (r_active (w_r w)); [|discriminate].
+    destruct (is_owner w c || r_creation (w_r w)); [|discriminate].
+    apply bind_ok in H. destruct H as (pe & Hreg & _). eapply registered_Registered; eauto.
+Qed.
+
+(** registration is not affected by swaps: the registry and the tokens a pair reports stay put *)
+Definition toks (pe : pent) : Z * Z := (pe_t1 pe, pe_t2 pe).
+Definition same_reg (w w' : world) : Prop :=
+  r_map (w_r w') = r_map (w_r w) /\
+  forall x, option_map toks (pair_at (w_pairs w') x) = option_map toks (pair_at (w_pairs w) x).
+
+Lemma same_reg_refl w : same_reg w w.
+Proof. split; auto. Qed.
+
+Lemma same_reg_trans a b c : same_reg a b -> same_reg b c -> same_reg a c.
+Proof. intros [A1 A2] [B1 B2]. split; [congruence | intros x; rewrite B2; apply A2]. Qed.
+
+Lemma Registered_same_reg w w' x : same_reg w w' -> (Registered w' x <-> Registered w x).
+Proof.
+  intros [Hm Ht]. specialize (Ht x). unfold Registered. rewrite Hm. split.
+  - intros (pe & P & G). rewrite P in Ht. destruct (pair_at (w_pairs w) x) as [pe0|]; [|discriminate].
+    simpl in Ht. inversion Ht. exists pe0. split; [reflexivity|]. congruence.
+  - intros (pe & P & G). rewrite P in Ht. destruct (pair_at (w_pairs w') x) as [pe0|]; [|discriminate].
+    simpl in Ht. inversion Ht. exists pe0. split; [reflexivity|]. congruence.
+Qed.
+
+Lemma do_hop_same_reg w h last resid w' last' resid' :
+  do_hop w h last resid = Ok (w', last', resid') -> same_reg w w'.
+Proof.
+  intros H. destruct (do_hop_frame _ _ _ _ _ _ _ H) as (pe & p' & Hreg & Hr & _ & Hp & _).
+  apply registered_ok in Hreg. destruct Hreg as [Hat _].
+  split; [rewrite Hr; reflexivity|]. intros x. rewrite Hp, pair_at_upd.
+  destruct (x =? fst (fst (fst h))) eqn:E; [|reflexivity].
+  beq. subst x. rewrite Hat. reflexivity.
+Qed.
+
+Lemma run_hops_app pre : forall post w last resid,
+  run_hops w (pre ++ post) last resid =
+  (do (w1, l1, r1) <- run_hops w pre last resid; run_hops w1 post l1 r1).
+Proof.
+  induction pre as [|h t IH]; intros post w last resid; simpl; [reflexivity|].
+  destruct (do_hop w h last resid) as [[[w1 l1] r1]|]; simpl; [apply IH | reflexivity].
+Qed.
+
+Lemma run_hops_same_reg hops : forall w last resid w' last' resid',
+  run_hops w hops last resid = Ok (w', last', resid') -> same_reg w w'.
+Proof.
+  induction hops as [|h t IH]; intros w last resid w' last' resid' H; simpl in H.
+  - inversion H; subst. apply same_reg_refl.
+  - apply bind_ok in H. destruct H as ([[w1 l1] r1] & Hh & H).
+    eapply same_reg_trans; [eapply do_hop_same_reg; eauto | eapply IH; eauto].
+Qed.
+
+Definition hop_addr (h : hop) : Z := fst (fst (fst h)).
+
+Lemma run_hops_registered hops : forall w last resid w' last' resid',
+  run_hops w hops last resid = Ok (w', last', resid') -> forall h, In h hops -> Registered w (hop_addr h).
+Proof.
+  induction hops as [|h0 t IH]; intros w last resid w' last' resid' H h Hin; simpl in H; [destruct Hin|].
+  apply bind_ok in H. destruct H as ([[w1 l1] r1] & Hh & H).
+  destruct Hin as [<-|Hin].
+  - destruct (do_hop_frame _ _ _ _ _ _ _ Hh) as (pe & _ & Hreg & _). eapply registered_Registered; eauto.
+  - apply (Registered_same_reg w w1); [eapply do_hop_same_reg; eauto|]. eapply IH; eauto.
+Qed.
+
+(** the successful steps of multiPairSwap, in order *)
+Lemma multi_swap_struct w c tin amt hops w' ps :
+  ep_multi_swap w c tin amt hops = Ok (w', ps) ->
+  r_active (w_r w) = true /\ 0 < amt /\ hops <> [] /\
+  exists led0 w1 last resid led2,
+    debit (w_led w) c tin amt = Ok led0 /\
+    run_hops (set_led w (credit led0 ROUTER tin amt)) hops (tin, amt) [] = Ok (w1, last, resid) /\
+    ps = resid ++ [last] /\
+    pay_all (w_led w1) ROUTER c ps = Ok led2 /\ w' = set_led w1 led2.
+Proof.
+  unfold ep_multi_swap. intros H.
+  destruct (r_active (w_r w)); [|discriminate]. destruct (tok_valid tin); [|discriminate].
+  destruct (0 <? amt) eqn:Ea; [|discriminate].
+  destruct hops as [|h0 t] eqn:Eh; [discriminate|]. rewrite <- Eh in *.
+  apply bind_ok in H. destruct H as (led0 & Hd & H). cbv zeta in H.
+  apply bind_ok in H. destruct H as ([[w1 last] resid] & Hr & H).
+  apply bind_ok in H. destruct H as (led2 & Hp & H). inversion H; subst w' ps; clear H. beq.
+  split; [reflexivity|]. split; [exact Ea|]. split; [rewrite Eh; discriminate|].
+  exists led0, w1, last, resid, led2. auto.
+Qed.
+
+Lemma multi_swap_hops_registered w c tin amt hops w' ps :
+  ep_multi_swap w c tin amt hops = Ok (w', ps) -> forall h, In h hops -> Registered w (hop_addr h).
+Proof.
+  intros H h Hin. apply multi_swap_struct in H.
+  destruct H as (_ & _ & _ & led0 & w1 & last & resid & led2 & _ & Hr & _).
+  eapply run_hops_registered in Hr; [|exact Hin]. exact Hr.
+Qed.
